@@ -133,7 +133,7 @@ impl Emitter {
         let v = match &obs.violation { Some(w) => format!("V:{}", w.replace('\t', " ").replace('\n', " ")), None => "ok".to_string() };
         writeln!(self.imp, "{}\t{}\t{}", obs.out, v, obs.tags.join(",")).unwrap();
         for t in &obs.tags { *self.tags.entry(t.to_string()).or_insert(0) += 1; }
-        let cls = if obs.out == "P" { "out:panic" } else if obs.out.ends_with('E') || obs.out == "E" { "out:err" } else { "out:ok" };
+        let cls = if obs.out == "P" { "out:panic" } else if obs.out.ends_with('E') || obs.out == "E" || obs.out.starts_with("E am=") { "out:err" } else { "out:ok" };
         *self.tags.entry(cls.to_string()).or_insert(0) += 1;
         self.n += 1;
     }
